@@ -22,7 +22,7 @@ func VH_C16_carousel(n int, sigmask int, depth int) {
 		// The engine treats the PRNG as an arbitrary function of the seed, so the seed in a
 		// counterexample need not produce the draw the solver chose. Natively the real PRNG runs:
 		// replay with a shared seed whose draw for this round agrees with the model's draw modulo
-		// every possible number of candidates (n <= 7, lcm 420). The property does not depend on
+		// every possible number of candidates (n <= 10, lcm 2520). The property does not depend on
 		// which seed it is.
 		seed = vhSeedFor(nondetU64("rand.Int"), round)
 	}
@@ -100,7 +100,7 @@ func VH_C16_carousel(n int, sigmask int, depth int) {
 
 func vhSeedFor(want uint64, round hotstuff.View) int64 {
 	for s := int64(0); s < 200000; s++ {
-		if uint64(rand.New(rand.NewSource(s+int64(round))).Int())%420 == want%420 {
+		if uint64(rand.New(rand.NewSource(s+int64(round))).Int())%2520 == want%2520 {
 			return s
 		}
 	}
